@@ -21,6 +21,11 @@ PROPS = {
                 {"name": "exhaustive", "vehicle": "overlay", "pkg": "internal/dynamiccache", "test": "TestC12Exhaustive", "quick_checks": 1, "quick_scale": 0, "thorough_scale": 2, "replayable": False},
                 {"name": "race", "vehicle": "overlay", "pkg": "internal/dynamiccache", "race": True, "test": "TestC12Race", "quick_checks": 300, "thorough_checks": 20000, "thorough_shards": 8, "replayable": False},
             ]},
+    "C20": {"level": "exploration", "assumptions": ["the registry pull is replaced by a scripted function (set in-package through the overlay); in the scripted part every scheduling decision between registration, completion and broadcast is made by the scenario; the free-running part samples Go scheduler interleavings under the race detector"],
+            "parts": [
+                {"name": "scripted", "vehicle": "overlay", "pkg": "internal/packages/internal/packageimport", "race": True, "test": "TestC20", "quick_checks": 300, "thorough_checks": 12000, "thorough_shards": 16},
+                {"name": "free", "vehicle": "overlay", "pkg": "internal/packages/internal/packageimport", "race": True, "test": "TestC20Free", "quick_checks": 300, "thorough_checks": 30000, "thorough_shards": 8, "replayable": False},
+            ]},
     "C17": {"level": "exploration", "assumptions": PURE_ASSUMPTIONS,
             "parts": [{"name": "probing", "test": "TestC17", "quick_checks": 20000, "thorough_checks": 2000000, "thorough_shards": 16}]},
     "C04": engine_prop("TestC04"),
